@@ -62,7 +62,7 @@ def write_replay(prop, tier, seed, viol):
     return path
 
 
-def matches_known(kf, violations):
+def matches_known(kf, violations, prop=None):
     """A known finding matches when every one of its signature strings occurs in the violation text."""
     leaves = []
 
@@ -77,7 +77,10 @@ def matches_known(kf, violations):
                 walk(v)
     walk(violations)
     text = "\n".join(leaves)
-    return all(s in text for s in kf.get("signature", []))
+    sig = kf.get("signature", [])
+    if isinstance(sig, dict):
+        sig = sig.get(prop, sig.get("*", ["\0never"]))
+    return all(s in text for s in sig)
 
 
 def cmd_check(args):
@@ -109,7 +112,7 @@ def cmd_check(args):
         except build.InfraError as e:
             print("INFRA: known-finding probe failed: %s" % e)
             return 2
-        if not out.ok and matches_known(kf, out.violations):
+        if not out.ok and matches_known(kf, out.violations, prop):
             line = "KNOWN-FINDING: property=%s %s" % (prop, kf["what"])
             print(line)
             known_lines.append(line)
@@ -207,7 +210,7 @@ def cmd_check(args):
     viols.sort(key=lambda v: len(json.dumps(v["case"])))
     for v in viols:
         # a violation that is exactly a listed known finding is reported as such
-        kf_hit = [kf for kf in known_for(prop) if matches_known(kf, v["violations"]) and kf.get("suppress_generated")]
+        kf_hit = [kf for kf in known_for(prop) if matches_known(kf, v["violations"], prop) and kf.get("suppress_generated")]
         if kf_hit:
             continue
         path = write_replay(prop, tier, seed, v)
